@@ -133,8 +133,8 @@ theorem inv_pollStart (s : St) (h : Inv s) : Inv (doPollStart s) := by
 theorem popMin_cnt_le {h e rest} (hp : popMin h = some (e, rest)) (k : Nat) : cnt rest k ≤ cnt h k := by
   have := popMin_cnt hp k; omega
 
-theorem inv_A (s : St) (h : Inv s) (hpc : s.pc = .a) : Inv (doA s) := by
-  unfold doA
+theorem inv_A (s : St) (h : Inv s) (hpc : s.pc = .a) : Inv (doAcore s) := by
+  unfold doAcore
   have hnoout : ∀ j, s.reg j ≠ .out := by
     intro j hj; have := (h.outPc j).1 hj; simp [hpc, outKey] at this
   split
@@ -204,7 +204,7 @@ theorem inv_A (s : St) (h : Inv s) (hpc : s.pc = .a) : Inv (doA s) := by
       · intro j; have := h.outPc j; simp [hpc, outKey] at *; exact this
 
 
-theorem inv_B (s : St) (t k : Nat) (h : Inv s) (hpc : s.pc = .b t k) : Inv (doB s t k) := by
+theorem inv_B (s : St) (t k : Nat) (h : Inv s) (hpc : s.pc = .b t k) : Inv (doBcore s t k) := by
   have hout : s.reg k = .out := (h.outPc k).2 (by simp [hpc, outKey])
   have htk := h.tok k (Or.inr hout)
   have harm : (s.peer k).armed = none := by
@@ -213,7 +213,7 @@ theorem inv_B (s : St) (t k : Nat) (h : Inv s) (hpc : s.pc = .b t k) : Inv (doB 
     | some x => simp [evs, armedN, inHand, hpc, handKey, ha] at htk
   cases hq : (s.peer k).q with
   | cons item q' =>
-    simp only [doB, hq]
+    simp only [doBcore, hq]
     refine ⟨?_, ?_, ?_, ?_, ?_⟩
     · intro hp; simp at hp
     · intro j hj
@@ -233,7 +233,7 @@ theorem inv_B (s : St) (t k : Nat) (h : Inv s) (hpc : s.pc = .b t k) : Inv (doB 
     · intro j; have := h.outPc j; simp [hpc, outKey] at this ⊢; exact this
   | nil =>
     by_cases hcl : (s.peer k).closed = true
-    · simp only [doB, hq, hcl, ↓reduceIte]
+    · simp only [doBcore, hq, hcl, ↓reduceIte]
       refine ⟨?_, ?_, ?_, ?_, ?_⟩
       · intro hp; simp at hp
       · intro j hj
@@ -242,7 +242,7 @@ theorem inv_B (s : St) (t k : Nat) (h : Inv s) (hpc : s.pc = .b t k) : Inv (doB 
       · exact h.armedEmpty
       · exact h.absentClean
       · intro j; have := h.outPc j; simp [hpc, outKey] at this ⊢; exact this
-    · simp only [doB, hq, hcl, ↓reduceIte]
+    · simp only [doBcore, hq, hcl, ↓reduceIte]
       refine ⟨?_, ?_, ?_, ?_, ?_⟩
       · intro hp; simp at hp
       · intro j hj
@@ -395,6 +395,67 @@ theorem inv_ready (s : St) (k : Nat) (p' : Peer) (h : Inv s) : Inv (ready s k p'
 theorem inv_with_hist (s : St) (hh : Nat → List Nat) (h : Inv s) : Inv { s with hist := hh } :=
   ⟨h.i1, h.tok, h.armedEmpty, h.absentClean, h.outPc⟩
 
+/-- yielding keeps every token where it is; the receiver parks NOTIFIED -/
+theorem inv_yield (s : St) (h : Inv s) (hpc : s.pc = .a) : Inv (yieldNow s) := by
+  refine ⟨?_, ?_, h.armedEmpty, h.absentClean, ?_⟩
+  · intro _ hn; simp [yieldNow] at hn
+  · intro j hj
+    have := h.tok j hj
+    simp only [yieldNow, evs, armedN, inHand, handKey, hpc] at this ⊢
+    exact this
+  · intro j
+    have := h.outPc j
+    simp only [yieldNow, outKey, hpc] at this ⊢
+    exact this
+
+/-- budget exhausted: the token of the stream in hand goes back to the heap (its waker fired) -/
+theorem inv_Bex (s : St) (t k : Nat) (h : Inv s) (hpc : s.pc = .b t k) : Inv (doBex s t k) := by
+  refine ⟨?_, ?_, ?_, ?_, ?_⟩
+  · intro hp; simp [doBex] at hp
+  · intro j hj
+    have hj' : s.reg j = .inMap ∨ s.reg j = .out := by simpa [doBex, fire] using hj
+    have := h.tok j hj'
+    by_cases e : k = j
+    · subst e
+      have hn : ¬ ((none : Option Nat) = some k) := by simp
+      simp only [doBex, fire, evs, armedN, inHand, handKey, hpc, cnt_cons, ↓reduceIte, hn] at this ⊢
+      omega
+    · have e' : ¬ (some k = some j) := by simpa using e
+      have hn : ¬ ((none : Option Nat) = some j) := by simp
+      simp only [doBex, fire, evs, armedN, inHand, handKey, hpc, cnt_cons, e, e', ↓reduceIte, hn] at this ⊢
+      omega
+  · intro j hj
+    have : (s.peer j).armed.isSome := by simpa [doBex, fire] using hj
+    simpa [doBex, fire] using h.armedEmpty j this
+  · intro j hj
+    have hj' : s.reg j = .absent := by simpa [doBex, fire] using hj
+    have := h.absentClean j hj'
+    have hout := (h.outPc k).mpr (by simp [hpc, outKey])
+    have hjk : k ≠ j := by intro e; subst e; simp [hj'] at hout
+    simp only [doBex, fire, cnt_cons, hjk, ↓reduceIte, Nat.zero_add]
+    exact this
+  · intro j
+    have := h.outPc j
+    simp only [doBex, fire, outKey, hpc] at this ⊢
+    exact this
+
+theorem inv_A' (s : St) (h : Inv s) (hpc : s.pc = .a) : Inv (doA s) := by
+  unfold doA
+  split
+  · split
+    · exact inv_yield s h hpc
+    · exact inv_A s h hpc
+  · exact inv_A s h hpc
+
+theorem inv_B' (s : St) (t k : Nat) (h : Inv s) (hpc : s.pc = .b t k) : Inv (doB s t k) := by
+  unfold doB
+  split
+  · exact inv_Bex s t k h hpc
+  · exact inv_B s t k h hpc
+
+theorem inv_exhaust (s : St) (h : Inv s) : Inv { s with exhausted := true } :=
+  ⟨h.i1, h.tok, h.armedEmpty, h.absentClean, h.outPc⟩
+
 theorem step_inv (s : St) (op : Op) (h : Inv s) : Inv (step s op) := by
   cases op with
   | insert k => exact inv_insert s k h
@@ -411,10 +472,11 @@ theorem step_inv (s : St) (op : Op) (h : Inv s) : Inv (step s op) := by
   | recvStep =>
     simp only [step, doRecv]
     split
-    · rename_i hpc; exact inv_A s h hpc
-    · rename_i t k hpc; exact inv_B s t k h hpc
+    · rename_i hpc; exact inv_A' s h hpc
+    · rename_i t k hpc; exact inv_B' s t k h hpc
     · rename_i t k r hpc; exact inv_C s t k r h hpc
     · exact h
+  | exhaust => exact inv_exhaust s h
 
 theorem inv_init : Inv ({} : St) := by
   refine ⟨?_, ?_, ?_, ?_, ?_⟩ <;> simp [outKey]
